@@ -15,8 +15,8 @@ META = dict(
                 'must equal, items and order, what rx.from_(values of that group).pipe(*P) emits on a plain observable. The group of each item is a solver variable (concretised by a comparison cascade), so every interleaving of <= G groups is a path. '
                 'A second form compares with_memory_store(P) on the root key with the plain run. Programs: every dual-mode catalogue operator alone, seeded type-correct compositions to depth 3, tee_map with the three joins over depth-1/2 branches. '
                 'Float-valued operators (sum, mean, variance, stddev, formal.*) are run with z3 Real terms as items at native speed (z3x family): mux and plain output terms must be identical or provably equal.',
-    bounds=dict(quick='N <= 3 items, G <= 2 groups, |v| <= 2^40; ~37 single operators, 30 seeded depth-2, 12 seeded depth-3, 9 tee_map programs; z3x: N <= 4, G <= 2',
-                thorough='N <= 4, G <= 3 (N <= 5 for branch-free pipelines); 300 seeded programs; z3x: N <= 6, G <= 3'),
+    bounds=dict(quick='N <= 3 items, G <= 2 groups, |v| <= 2^40; ~37 single operators, 30 seeded depth-2, 12 seeded depth-3, 9 tee_map programs; z3x: N <= 5, G <= 3',
+                thorough='N <= 4, G <= 3 (N <= 5 for branch-free pipelines); 300 seeded programs; z3x: N <= 7, G <= 3'),
     outside='pipelines not enumerated; N, G above the bound; int64 overflow of typed state; the preconditions of the statement are assumed: first/last/reduce on an empty sequence (plain RxPY raises) is skipped, '
             'tee_map branches do not place completion-triggered operators after take/first, predicates return bool, failing assert_ is compared in single-group form only',
     assumptions=['plain RxPY execution of the same operator objects is the specification (differential oracle)'],
@@ -95,7 +95,118 @@ def asserting(p):
     return mk('asserting', [('v%d' % i, 'int') for i in range(n)], pre, body)
 
 
-FAMILIES = {'grouped': grouped, 'root': root, 'asserting': asserting}
+FLOAT_PROGS = {
+    'sum': lambda: [rs.math.sum()], 'sum_r': lambda: [rs.math.sum(reduce=True)],
+    'mean': lambda: [rs.math.mean()], 'mean_r': lambda: [rs.math.mean(reduce=True)],
+    'var': lambda: [rs.math.variance()], 'var_r': lambda: [rs.math.variance(reduce=True)],
+    'std': lambda: [rs.math.stddev()], 'std_r': lambda: [rs.math.stddev(reduce=True)],
+    'fvar': lambda: [rs.math.formal.variance()], 'fvar_r': lambda: [rs.math.formal.variance(reduce=True)],
+    'fstd': lambda: [rs.math.formal.stddev()], 'fstd_r': lambda: [rs.math.formal.stddev(reduce=True)],
+    'sum>var': lambda: [rs.math.sum(), rs.math.variance()],
+    'inc>mean>scan': lambda: [rs.ops.map(lambda i: i + 1), rs.math.mean(), rs.ops.scan(lambda a, i: a + i, seed=0.0)],
+    'tee(sum,var_r)': lambda: [rs.ops.tee_map(rs.math.sum(), rs.math.variance(reduce=True), join='combine_latest')],
+    'var_k>last': lambda: [rs.math.variance(key_mapper=lambda i: i * 3), rs.ops.last()],
+}
+
+
+class Floats(object):
+    """z3x: float-valued operators run at native speed with z3 Real terms as items; every assignment of the N items to <= G groups is enumerated
+    (their control flow does not depend on item values) and the mux output terms are compared with the plain output terms, syntactically first, by unsat of != otherwise"""
+
+    def __init__(self, p):
+        self.p = p
+
+    def _run(self, prog, items, values):
+        from vp import z3x
+        with z3x.float_slots(), z3x.sqrt_uf():
+            log, err = [], []
+            inner = [rs.ops.map(lambda i: i[1])] + FLOAT_PROGS[prog]() + [D.tap(log)]
+            D.src(items).pipe(rs.state.with_memory_store([rs.ops.group_by(lambda i: i[0], inner)])).subscribe(on_error=lambda e: err.append(repr(e)))
+            order = []
+            for k, _ in items:
+                if k not in order:
+                    order.append(k)
+            res = []
+            for gi, k in enumerate(order):
+                exp = []
+                D.src([v for kk, v in items if kk == k]).pipe(*FLOAT_PROGS[prog]()).subscribe(on_next=exp.append, on_error=lambda e: exp.append(('ERR', repr(e))))
+                got = [e[2] for e in log if e[0] == 'n' and e[1] == gi]
+                res.append((k, got, exp))
+        return res, err
+
+    def __call__(self):
+        import itertools
+        import z3
+        from vp import z3x
+        prog, n, g = self.p['prog'], self.p['n'], self.p['g']
+        q = z3x.Queries(cross_check=self.p.get('cross', False))
+        xs = [z3.Real('x%d' % i) for i in range(n)]
+        shapes = 0
+        bad, unknown = [], []
+        for keys in itertools.product(range(g), repeat=n):
+            if any(keys[i] > max(keys[:i] + (-1,)) + 1 for i in range(n)):
+                continue          # group names are canonical up to renaming (restricted growth string)
+            shapes += 1
+            res, err = self._run(prog, list(zip(keys, xs)), xs)
+            for k, got, exp in res:
+                if err or len(got) != len(exp):
+                    bad.append(dict(prog=prog, keys=keys, problem='different number of outputs', observed=len(got), expected=len(exp), err=err, replay=dict(prog=prog, keys=list(keys))))
+                    continue
+                for j, (a, b) in enumerate(zip(got, exp)):
+                    pairs = list(zip(a, b)) if isinstance(a, tuple) and isinstance(b, tuple) and len(a) == len(b) else [(a, b)]
+                    for (u, v) in pairs:
+                        if u is None and v is None:
+                            continue
+                        r, m = z3x.terms_equal(u, v, q, '%s keys=%s group=%s out#%d' % (prog, keys, k, j))
+                        if r in ('same', 'unsat'):
+                            continue
+                        if r == 'sat':
+                            bad.append(dict(prog=prog, keys=keys, group=k, output=j, replay=dict(prog=prog, keys=list(keys))))
+                        else:
+                            unknown.append('%s on %s %s' % (r, prog, keys))
+        out = dict(paths=shapes, solver_queries=q.n, solver_s=round(q.solver_s, 3), queries=q.log[:20], encoded=['float-valued rxsci.math operators executed on z3 Real terms through the real group_by / scan / map / tee_map'])
+        real_bad = []
+        for b_ in bad:
+            rp = self.replay([b_['replay']])
+            if rp['reproduced']:
+                b_.update(rp['detail'])
+                real_bad.append(b_)
+            else:
+                unknown.append('term difference does not reproduce concretely: %s' % (b_,))
+        if real_bad:
+            out.update(verdict='REFUTED', cex=dict(args=[real_bad[0]['replay']], kwargs={}), detail=real_bad[0])
+        elif unknown:
+            out.update(verdict='INCONCLUSIVE', reason=str(unknown[:3]))
+        else:
+            out.update(verdict='CONFIRMED')
+        return out
+
+    def replay(self, args):
+        a = args[0]
+        keys = a['keys']
+        vals = [1.5, -2.0, 4.25, 10.0, 0.5, 7.0, -3.5, 2.0][:len(keys)]
+        import math
+        out = []
+        log, err = [], []
+        inner = [rs.ops.map(lambda i: i[1])] + FLOAT_PROGS[a['prog']]() + [D.tap(log)]
+        items = list(zip(keys, vals))
+        D.src(items).pipe(rs.state.with_memory_store([rs.ops.group_by(lambda i: i[0], inner)])).subscribe(on_error=lambda e: err.append(repr(e)))
+        order = []
+        for k in keys:
+            if k not in order:
+                order.append(k)
+        diff = None
+        for gi, k in enumerate(order):
+            exp = []
+            D.src([v for kk, v in items if kk == k]).pipe(*FLOAT_PROGS[a['prog']]()).subscribe(on_next=exp.append, on_error=lambda e: exp.append(('ERR', repr(e))))
+            got = [e[2] for e in log if e[0] == 'n' and e[1] == gi]
+            if got != exp or err:
+                diff = dict(items=items, group=k, observed=got, expected=exp, err=err)
+                break
+        return dict(reproduced=diff is not None, detail=diff or {})
+
+
+FAMILIES = {'grouped': grouped, 'root': root, 'asserting': asserting, 'floats': Floats}
 
 
 def _tee_ok(desc, in_tee=False):
@@ -166,5 +277,10 @@ def obligations(tier, seed):
     for op in ('assert_', 'assert_1'):
         for n in ((2, 3) if q else (2, 3, 4)):
             obs.append(Ob(PROP, 'asserting', dict(op=op, n=n), budget=b, bound=dict(items=n, values='0..3')))
+    for prog in FLOAT_PROGS:
+        for n in ((2, 3, 4, 5) if q else (2, 3, 4, 5, 6, 7)):
+            g = 3
+            obs.append(Ob(PROP, 'floats', dict(prog=prog, n=n, g=g, cross=not q), kind='direct', budget=200 if q else 900, group='floats(z3x)',
+                          bound=dict(items=n, groups=g, values='any real', pipeline=prog)))
     obs.append(Ob(PROP, 'grouped', dict(desc=[['filter_even'], ['scan_add']], n=3, g=2, _twin='reach'), budget=60, expect='refute'))
     return obs
